@@ -160,7 +160,7 @@ static void rt_pair(int kind, int fsm, int base /*3 or 5*/)
 
 struct case_budget chk_budget(const char *tier)
 {
-        struct case_budget b = { (128 - 6 + 1) * 2, strcmp(tier, "thorough") == 0 ? 400000 : 12000 };
+        struct case_budget b = { (128 - 6 + 1) * 2, strcmp(tier, "thorough") == 0 ? 2500000 : 40000 };
         return b;
 }
 void chk_run_case(uint64_t seed, long c, bool is_sweep)
